@@ -14,7 +14,7 @@ FUNCTIONS = [
     "batchie.data.Plate.merge", "batchie.core.RetrospectivePlateGenerator.generate_plates / RetrospectivePlateSmoother.smooth_plates",
 ]
 BOUNDS = {
-    "quick": "six hand-written screen families of 4-7 rows (several samples at or below the size limit, samples with exactly the limit, single-agent rows, one or many plates); every integer parameter in its small range; every value the random generator can return; plus two generated structures (9 rows on 5+1 plates and 10 rows on 6 plates, repeated plate sizes, rows of a plate not adjacent) under every operation; pairwise generator on five samples x all pairs of four drugs (30 rows, one legal draw)",
+    "quick": "six hand-written screen families of 4-7 rows (several samples at or below the size limit, samples with exactly the limit, single-agent rows, one or many plates); every integer parameter in its small range; every value the random generator can return; plus two generated structures (9 rows on 5+1 plates and 10 rows on 6 plates, repeated plate sizes, rows of a plate not adjacent) under every operation; pairwise generator on five samples x all pairs of four drugs (30 rows, one legal draw); six smoothers on a screen with a single unobserved plate (family S1)",
     "thorough": "six hand-written families with up to 7 rows per operation plus 64 generated screen structures (up to 12 rows on up to 7 plates; operations whose draws are permutations of all rows on at most 6-7 rows of 24 structures) under every operation",
 }
 ASSUMPTIONS = [
